@@ -141,6 +141,16 @@ impl Rng {
     /// With probability 1/5 append characters outside ASCII (2-, 3- and 4-byte UTF-8): lengths on
     /// the wire are byte counts, not character counts.
     pub fn spice(&mut self, s: String) -> String {
+        if self.chance(1, 12) {
+            // decorations players and servers know (container prefixes, extensions, instance
+            // names, query strings): a name is a name, byte for byte
+            let d = *self.pick(&["mp4:", "flv:", "mp3:", "MP4:", "_definst_/", "@", "rtmp://h/a/"]);
+            return format!("{}{}", d, s);
+        }
+        if self.chance(1, 12) {
+            let d = *self.pick(&[".flv", ".mp4", ".f4v", "?auth=1", "/_definst_", " ", "#x"]);
+            return format!("{}{}", s, d);
+        }
         if self.chance(1, 5) {
             format!("{}{}", s, self.pick(&["\u{e9}", "\u{4e2d}\u{6587}", "\u{1f600}", "\u{df} x", "\u{e9}\u{4e2d}\u{1f600}"]))
         } else {
